@@ -137,6 +137,28 @@ impl FileUploadSession {
     ///
     /// The caller is responsible for memory usage management, the parameter "buffer_size"
     /// indicates the maximum number of Vec<u8> in the internal buffer.
+    /// Verification hook: a session that talks to the given client (observing / failing / delaying
+    /// `put` and `upload_shard` calls) instead of the one derived from the configuration.
+    #[cfg(xet_verif)]
+    pub async fn new_with_client(
+        config: Arc<TranslatorConfig>,
+        threadpool: Arc<ThreadPool>,
+        client: Arc<dyn Client + Send + Sync>,
+    ) -> Result<Arc<FileUploadSession>> {
+        let shard_interface = SessionShardInterface::new(config.clone(), client.clone(), false).await?;
+        Ok(Arc::new(Self {
+            shard_interface,
+            client,
+            upload_progress_updater: None,
+            threadpool,
+            repo_id: None,
+            config,
+            current_session_data: Mutex::new(DataAggregator::default()),
+            deduplication_metrics: Mutex::new(DeduplicationMetrics::default()),
+            xorb_upload_tasks: Mutex::new(JoinSet::new()),
+        }))
+    }
+
     pub fn start_clean(self: &Arc<Self>, file_name: String) -> SingleFileCleaner {
         SingleFileCleaner::new(file_name, self.clone())
     }
@@ -196,6 +218,11 @@ impl FileUploadSession {
         {
             let mut current_session_data = self.current_session_data.lock().await;
 
+            #[cfg(xet_verif)]
+            utils::verif_hooks::event("session.file_done", || {
+                file_data.pending_file_info.iter().map(|(fi, _)| fi.metadata.file_hash.hex()).collect::<Vec<_>>().join(",")
+            });
+
             // Do we need to cut one of these to a xorb?
             if current_session_data.num_bytes() + file_data.num_bytes() > *MAX_XORB_BYTES
                 || current_session_data.num_chunks() + file_data.num_chunks() > *MAX_XORB_CHUNKS
@@ -233,6 +260,17 @@ impl FileUploadSession {
     /// Process the aggregated data, uploading the data as a xorb and registering the files
     async fn process_aggregated_data_as_xorb(self: &Arc<Self>, data_agg: DataAggregator) -> Result<()> {
         let (xorb, new_files) = data_agg.finalize();
+
+        #[cfg(xet_verif)]
+        utils::verif_hooks::event("session.aggregated_xorb", || {
+            format!(
+                "{} {} {} files={}",
+                xorb.hash().hex(),
+                xorb.data.len(),
+                xorb.num_bytes(),
+                new_files.iter().map(|fi| fi.metadata.file_hash.hex()).collect::<Vec<_>>().join(",")
+            )
+        });
         debug_assert_le!(xorb.num_bytes(), *MAX_XORB_BYTES);
         debug_assert_le!(xorb.data.len(), *MAX_XORB_CHUNKS);
 
